@@ -220,7 +220,7 @@ def run_bin(spec, method, cot, mode="G", tol=1e-10, kmax=400, scale=Fraction(1),
         fval = sum(zi * (float(c) if cot is not None else 1.0) for zi, c in zip(z, cot if cot is not None else [1] * len(z)))
         wl = [sr.wconv(v) for v in gen.flat(spec["weights"][factor])]
         if factor not in exps: raise RuntimeError("no E[#] line for factor %s" % factor)
-        gexp = {factor: [e * fval / w for e, w in zip(exps[factor], wl)]}
+        gexp = {factor: [e * fval / w for e, w in zip(exps[factor], wl)]} if fval != 0 and fval == fval and abs(fval) != math.inf else None   # E = grad * w / f is 0/0 when f = 0
     return "ok", grads, gexp, p.stderr
 
 def wire_case(spec, sr, cot, grads):
@@ -296,7 +296,10 @@ def forced_finding_specs():
     size1 = dict(nlabels=[1], elabels=[NT0, dict(term=True, type=[0])], start=0,
                  rules=[dict(lhs=0, nodes=[0], edges=[(1, [0])], ext=[])],
                  weights={1: [F(1, 4)]}, features=["forced_size1_axis"], recursive=False)
-    return dead, unreach, size1
+    fp0 = dict(nlabels=[2], elabels=[NT0, dict(term=True, type=[]), dict(term=True, type=[])], start=0,
+               rules=[dict(lhs=0, nodes=[], edges=[(0, []), (1, [])], ext=[]), dict(lhs=0, nodes=[], edges=[(2, [])], ext=[])],
+               weights={1: F(1), 2: F(0)}, features=["forced_fixed_point_zero_solution"], recursive=True)
+    return dead, unreach, size1, fp0
 
 def gen_spec(rng, i, recursive):
     if recursive and i % 3 == 1:
@@ -332,7 +335,7 @@ def run(tier, seed):
     pool = ThreadPoolExecutor(5); bin_jobs = []
     # the command-line tool on a few Real cases: subprocesses started now, collected at the end
     brng = random.Random(seed * 31 + 7); k = 0; tries = 0
-    dead_spec, unreach_spec, size1_spec = forced_finding_specs()
+    dead_spec, unreach_spec, size1_spec, fp0_spec = forced_finding_specs()
     sr1 = SR("real", "float64", Fraction(1))
     bin_jobs.append((unreach_spec, sr1, "fixed-point", [Fraction(1)], True, False, "G", None, pool.submit(run_bin, unreach_spec, "fixed-point", None, "G")))
     bin_jobs.append((size1_spec, sr1, "newton", [Fraction(1)], True, False, "ge", 1, pool.submit(run_bin, size1_spec, "newton", None, "ge", factor=1)))
@@ -363,9 +366,10 @@ def run(tier, seed):
         vals.append(wire_case(spec, sr, cot, grads)); meta.append((case, call, grads, dead))
         if any(x != 0 for g in grads.values() for x in g):
             distinct.add(json.dumps(case, sort_keys=True))
-    for i in range(-1, n_nonrec + n_rec):
-        recursive = i >= n_nonrec
-        spec, scale, keep_zero = (dead_spec, Fraction(1), False) if i < 0 else gen_spec(rng, i, recursive)
+    for i in range(-2, n_nonrec + n_rec):
+        recursive = i >= n_nonrec or i == -2
+        # i = -1, -2: the minimal inputs of two known findings (Log dead rule; fixed-point with F(0) = 0: X -> X a | b, b = 0)
+        spec, scale, keep_zero = (dead_spec, Fraction(1), False) if i == -1 else (fp0_spec, Fraction(1, 4), True) if i == -2 else gen_spec(rng, i, recursive)
         if sum(numel([spec["nlabels"][nl] for nl in spec["elabels"][el]["type"]]) for el in spec["weights"]) > (10 if recursive else 16):
             kinds["skipped_large"] += 1; continue
         for f in spec["features"]: feats[f] = feats.get(f, 0) + 1
@@ -374,7 +378,7 @@ def run(tier, seed):
         for ci, srn in enumerate(["real", "log"]):
             if srn == "log" and keep_zero: continue
             sr = SR(srn, "float64", scale)
-            method = METHODS[(i + ci) % 3]
+            method = METHODS[(i + ci) % 3] if i != -2 else "fixed-point"
             plain = (i + ci) % 3 == 0
             cot = [Fraction(1)] * n_c if plain else [rng.choice(COT_GRID) for _ in range(n_c)]
             case = dict(spec=gen.spec_jsonable(spec), semiring=sr.name, scale=str(sr.scale), method=method, cotangent=[str(c) for c in cot], plain=plain, via="api")
@@ -391,7 +395,7 @@ def run(tier, seed):
             if status == "valueerror": kinds["valueerror"] += 1; continue
             if status == "nograd": kinds["nograd"] += 1
             if warned: kinds["warned"] += 1; continue      # not converged: the property presupposes the computed Z
-            record(spec, sr, method, cot, plain, recursive, "api", grads, case, call, dead if srn == "log" else None)
+            record(spec, sr, method, cot, plain, recursive, "api", grads, dict(case, status=status, z_all_zero=all(x == 0 for x in z)), call, dead if srn == "log" else None)
     t_impl = time.time()
     codes, nk = run_model_parallel(vals, seed, coq_sample=3 if tier == "quick" else 12)
     # the command-line runs were working in the background all along; judge their outputs now
@@ -429,7 +433,9 @@ def run(tier, seed):
             conclusive_by[k] = conclusive_by.get(k, 0) + 1
         if c in (0, 30, 31): continue
         fk = "c03_log_dead_rule_nan" if (c == 1 and case["semiring"] == "log" and dead) else None
-        violations.append(Violation(WHAT.get(c, "framework inconsistency (code %d)" % c) + (" [Log semiring, a rule with sum-product zero at some cell]" if fk else ""),
+        if c == 1 and case["semiring"] == "real" and case["method"] == "fixed-point" and case.get("status") == "nograd" and case.get("z_all_zero"):
+            fk = "c03_fixed_point_empty_solution"
+        violations.append(Violation(WHAT.get(c, "framework inconsistency (code %d)" % c) + (" [Log semiring, a rule with sum-product zero at some cell]" if fk == "c03_log_dead_rule_nan" else " [fixed-point returned no value (constant zero without gradient)]" if fk else ""),
                                     case=dict(case, dead_rules=dead), observed=grads, oracle=ORACLE if c == 1 else None,
                                     corr="C03 / corr:backward", failing_input_found=c in (1, 4), call=call, finding_key=fk))
     s0 = meta[0] if meta else None
@@ -442,9 +448,11 @@ def run(tier, seed):
     return cov, violations
 
 OPEN_ITEMS = [
-    "open (analysis, not formalised): derivative of the limit = limit of the derivatives of the Kleene iterates for recursive grammars (termwise differentiation of a power series with non-negative coefficients inside its domain of convergence)",
-    "open: instances for ereal_ops wait for the sr_ring / sr_ordered law proofs of C08 (the theorems keep the law premises explicit)",
+    "proved (Props/C03.v, 30 closed theorems, generic in the semiring): dual numbers are a commutative / ordered / star semiring; Leibniz rule; C03_dual_is_derivative (projection + linearised recurrence); C03_J_is_formal_derivative (+ partial environments, Jx / J_inputs); C03_scc_vjp_onestep; C03_nonrecursive_gradient (reverse accumulation = dual-number derivative); C03_tree_derivative, C03_expected_count_numerator; C03_encl2_sound; C03_check_oracle_sound, C03_entry_interval_sound, C03_start_bounds_sound; C03_log_partial; C03_log_dead_rule_refuted",
+    "open (analysis, not formalised): derivative of the limit = limit of the derivatives of the Kleene iterates for recursive grammars (termwise differentiation of a power series with non-negative coefficients inside its domain of convergence); proved up to: the epsilon part of every sufficiently late dual Kleene iterate lies in the certified interval",
+    "open (tier B): C03_log at the block level (J_log = diag(1/F) J diag(x) as a sum over the contributions); the per-contribution identity is proved (C03_log_partial)",
     "open (tier B): linearly recursive grammars -- derivative of the rational least solution equals the implicit-function result of backward; the backward pass of iteratively solved components (multi_solve on the transposed system) is not modelled, it is judged by the enclosure oracle",
+    "open: instances for ereal_ops wait for the sr_ring / sr_ordered law proofs of C08 (the theorems keep the law premises explicit)",
     "open: J_precompute_products (option j_precompute=True) is C11's business (finding F9) and is not exercised here",
 ]
 
